@@ -433,19 +433,25 @@ class CellBase(shapes.Shape, AccessPoint):  # pylint: disable=W0223
         ValueError
             If the ratio is invalid (negative or greater than 1).
         """
+        def is_single_value(value: Any) -> bool:
+            """True for a single number (of any type, including numpy
+            scalars and 0-dimensional arrays)."""
+            return (not isinstance(value, Iterable)
+                    or (isinstance(value, np.ndarray) and value.ndim == 0))
+
         # Assures that angle is an iterable
-        if not isinstance(angles, Iterable):
-            angles = [angles]
+        if is_single_value(angles):
+            angles = [angles]  # type: ignore
 
         if user_color is None:
             user_color = itertools.repeat(user_color)  # type: ignore
         elif isinstance(user_color, str):
             user_color = itertools.repeat(user_color)
-        if isinstance(ratio, float):
-            ratio = CellBase._validate_ratio(ratio)
-            ratio = itertools.repeat(ratio)
-        elif ratio is None:
+        if ratio is None:
             ratio = itertools.repeat(None)  # type: ignore
+        elif is_single_value(ratio):
+            ratio = CellBase._validate_ratio(ratio)  # type: ignore
+            ratio = itertools.repeat(ratio)
         else:
             assert (isinstance(ratio, Iterable))
             ratio = [CellBase._validate_ratio(i) for i in ratio]
@@ -2233,10 +2239,8 @@ class Cluster(shapes.Shape):
             for data in all_data:
                 self.add_random_users(*data)
         else:
-            assert (isinstance(num_users, int))
-            assert (isinstance(min_dist_ratio, float))
             assert (user_color is None or isinstance(user_color, str))
-            for _ in range(num_users):
+            for _ in range(num_users):  # type: ignore
                 # Note that here cell_ids will be a single value, as well
                 # as user_color and min_dist_ratio
                 self.get_cell_by_id(cell_ids).add_random_user(
